@@ -85,6 +85,12 @@ type world struct {
 	rrs   []*rerunner
 	ev    chan int
 	quiet bool
+	// triggers counts events that legitimately cause re-runs (writes, flushes,
+	// injected retry errors, InvalidateAfter registrations); abort is set when a
+	// rerunner re-runs far more often than that (a re-run storm) so the run can
+	// end instead of burning its step budget.
+	triggers int
+	abort    bool
 }
 
 func (w *world) newInst(slot int) *inst {
@@ -97,8 +103,10 @@ func (w *world) newInst(slot int) *inst {
 			w.c.ViolateFor("C08", "cleanup-more-than-once", "resource instance %d (slot %d) cleaned up %d times", in.id, in.slot, in.cleaned)
 		}
 		// a released resource is invalidated for good: never hand it out again
+		// (newInst contains scheduling points, the swap itself is atomic)
+		n := w.newInst(in.slot)
 		if w.cur[in.slot] == in {
-			w.cur[in.slot] = w.newInst(in.slot)
+			w.cur[in.slot] = n
 		}
 	})
 	return in
@@ -137,7 +145,8 @@ func (w *world) exec(ctx context.Context, r *rerunner, plan []item, inv int, dep
 				w.c.Probe("cache-miss")
 				o, err := w.exec(ctx, r, r.sub[key], inv, depth+1)
 				if err == nil && r.childErrAt[inv] {
-					w.c.Fault("cached-child-retry-error")
+					w.triggers++
+			w.c.Fault("cached-child-retry-error")
 					return nil, reactive.RetrySentinelError
 				}
 				return o, err
@@ -147,6 +156,7 @@ func (w *world) exec(ctx context.Context, r *rerunner, plan []item, inv int, dep
 			}
 			out = append(out, v.([]obs)...)
 		case itAfter:
+			w.triggers++
 			w.c.Probe("invalidate-after")
 			reactive.InvalidateAfter(ctx, it.dur)
 		case itPurge:
@@ -173,6 +183,15 @@ func (w *world) compute(r *rerunner) reactive.ComputeFunc {
 		if inv > 1 {
 			w.c.NonTrivial()
 		}
+		// A re-run storm: far more invocations than events that can cause a
+		// re-run. The scheduler is fair (bounded starvation), so spinning
+		// while another task finishes a release is bounded; the bound below is
+		// far above it.
+		if inv > 150+25*w.triggers && !w.abort {
+			w.abort = true
+			w.c.Probe("rerun-storm")
+			w.c.ViolateFor("C08", "rerun-storm", "rerunner %d reached invocation %d after only %d events that can cause a re-run (writes, flushes, injected retries, InvalidateAfter registrations): it keeps re-running, as when an invalidated cached value keeps being reused", r.j, inv, w.triggers)
+		}
 		w.signal(1)
 		out, err := w.exec(ctx, r, r.plan, inv, 0)
 		r.inRun--
@@ -184,6 +203,7 @@ func (w *world) compute(r *rerunner) reactive.ComputeFunc {
 			return nil, err
 		}
 		if r.retryAt[inv] {
+			w.triggers++
 			w.c.Fault("compute-retry-error")
 			simrt.Logf("run end rr=%d inv=%d retry", r.j, inv)
 			return nil, reactive.RetrySentinelError
@@ -320,6 +340,7 @@ func body(c *runner.Ctx, slow bool) {
 			}()
 		}
 		mode := w.wait(c)
+		w.triggers += 2
 		slot := c.Choose(nSlots, "write-slot")
 		if c.Choose(8, "flush") == 1 {
 			w.rrs[c.Choose(nR, "flush-who")].r.RerunImmediately()
@@ -331,8 +352,9 @@ func body(c *runner.Ctx, slow bool) {
 			w.cur[slot].res.Strobe()
 			desc = append(desc, fmt.Sprintf("%s:strobe(%d)", mode, slot))
 		} else {
+			n := w.newInst(slot) // contains scheduling points
 			old := w.cur[slot]
-			w.cur[slot] = w.newInst(slot)
+			w.cur[slot] = n // atomic swap
 			simrt.Logf("write slot=%d ver=%d invalidate inst=%d", slot, w.ver[slot], old.id)
 			old.res.Invalidate()
 			desc = append(desc, fmt.Sprintf("%s:inval(%d)", mode, slot))
@@ -346,6 +368,9 @@ func body(c *runner.Ctx, slow bool) {
 
 	// quiescence: longer than min-interval + write-then-read delay + capped retry back-off
 	w.settle(5 * time.Minute)
+	if w.abort {
+		return
+	}
 	simrt.Logf("quiescence check")
 	w.checkFresh(c)
 	w.checkCleanupLive(c)
@@ -419,8 +444,10 @@ func (w *world) wait(c *runner.Ctx) string {
 // settle lets simulated time pass and then waits until no reactive task is
 // runnable (timers may still be pending).
 func (w *world) settle(d time.Duration) {
-	simrt.Sleep(d)
-	for i := 0; i < 200; i++ {
+	for ; d > 0 && !w.abort; d -= 5 * time.Second {
+		simrt.Sleep(min(d, 5*time.Second))
+	}
+	for i := 0; i < 200 && !w.abort; i++ {
 		busy := false
 		for _, r := range w.rrs {
 			if r.inRun > 0 {
